@@ -35,6 +35,7 @@ use lightning::ln::outbound_payment::RecipientOnionFields;
 use lightning::ln::types::ChannelId;
 use lightning::ln::verif_hooks as vh;
 use lightning::ln::verif_hooks::RevocationView;
+use lightning::sign::{ChannelSigner, SignerProvider};
 use lightning::routing::router::{Path, PaymentParameters, Route, RouteHop, RouteParameters};
 use lightning::types::payment::{PaymentHash, PaymentPreimage};
 use lightning::util::persist::MonitorName;
@@ -251,6 +252,8 @@ impl Flags {
 #[derive(Clone, Copy, Debug)]
 enum Act {
 	Deliver(usize),
+	/// deliver a fabricated revoke_and_ack (reported as `deliver` with corrupt = raa_extra)
+	Extra(usize),
 	Send(usize),
 	Claim(usize),
 	Fail(usize),
@@ -270,7 +273,7 @@ enum Act {
 impl Act {
 	fn name(&self) -> &'static str {
 		match self {
-			Act::Deliver(_) => "deliver",
+			Act::Deliver(_) | Act::Extra(_) => "deliver",
 			Act::Send(_) => "send",
 			Act::Claim(_) => "claim",
 			Act::Fail(_) => "fail",
@@ -291,6 +294,7 @@ impl Act {
 	fn node(&self) -> Option<usize> {
 		match self {
 			Act::Deliver(n)
+			| Act::Extra(n)
 			| Act::Send(n)
 			| Act::Claim(n)
 			| Act::Fail(n)
@@ -320,6 +324,8 @@ struct World {
 	chan_id: ChannelId,
 	funding_txid: Txid,
 	keys: [[u8; 32]; 2],
+	/// address of each node's shared signer EnforcementState (never printed)
+	state_ids: [usize; 2],
 	q: [VecDeque<QMsg>; 2],
 	connected: bool,
 	want_disc: bool,
@@ -534,7 +540,10 @@ impl World {
 	fn collect_log(&self, obs: &mut [Obs; 2]) {
 		for c in vh::signer_log::take() {
 			let txs = c.commitment_txid.map(|t| tx8(&t)).unwrap_or_default();
-			let known = (0..2).find(|n| self.keys[*n] == c.channel_keys_id);
+			// by the node-local signer state first (channel_keys_ids can coincide between nodes)
+			let known = (0..2)
+				.find(|n| self.state_ids[*n] == c.state_id)
+				.or_else(|| (0..2).find(|n| self.state_ids[*n] == 0 && self.keys[*n] == c.channel_keys_id));
 			match known {
 				Some(n) => obs[n].log.push(format!("[\"{}\",{},\"{}\"]", c.kind, c.number, txs)),
 				None => {
@@ -725,7 +734,47 @@ impl World {
 	}
 
 	/// Pops the head of `q[n]`, possibly corrupts it, hands it to node `n`. Returns the args body.
+	/// A revoke_and_ack nobody sent: the peer `p` of `n` "revoking" its CURRENT commitment, built
+	/// from p's raw key material (neither the TestChannelSigner log nor its assertions are touched).
+	fn fabricate_raa(&self, n: usize) -> Option<msgs::RevokeAndACK> {
+		let p = 1 - n;
+		let v = self.view(n)?;
+		if v.awaiting_remote_revoke || v.counterparty_next == 0 {
+			return None;
+		}
+		let sg = self.nodes[p].keys_manager.derive_channel_signer(self.keys[p]);
+		let secret = sg.inner.release_commitment_secret(v.counterparty_next + 1).ok()?;
+		let point = sg.inner.get_per_commitment_point(v.counterparty_next - 1, &self.intern.secp).ok()?;
+		Some(msgs::RevokeAndACK {
+			channel_id: self.chan_id,
+			per_commitment_secret: secret,
+			next_per_commitment_point: point,
+			release_htlc_message_paths: Vec::new(),
+		})
+	}
+
+	fn deliver_fabricated(&mut self, n: usize, m: msgs::RevokeAndACK, rec: &Rc<RefCell<Rec>>, hdr: &str) {
+		let mid = self.next_mid;
+		self.next_mid += 1;
+		let mut j = self.wire_json(&Wire::RAA(m.clone()), mid);
+		j.pop();
+		let body = format!("{},\"corrupt\":\"raa_extra\"", &j[1..]);
+		{
+			let mut r = rec.borrow_mut();
+			r.pending = Some(format!("{},\"args\":{{{}}}", hdr, body));
+			r.corrupt.push("raa_extra".to_string());
+		}
+		self.nodes[n].node.handle_revoke_and_ack(self.ids[1 - n], &m);
+	}
+
 	fn deliver(&mut self, n: usize, rng: &mut Rng, adv: bool, rec: &Rc<RefCell<Rec>>, hdr: &str) {
+		// only possible while `n` is not awaiting a revocation, which is rare with traffic in flight
+		let fab = if adv { self.fabricate_raa(n) } else { None };
+		if fab.is_some() && rng.below(6) == 0 {
+			// inserted BEFORE the head of the queue, which stays where it is
+			self.deliver_fabricated(n, fab.unwrap(), rec, hdr);
+			return;
+		}
 		let mut qm = self.q[n].pop_front().unwrap();
 		let from = 1 - n;
 		let from_id = self.ids[from];
@@ -895,6 +944,15 @@ fn run_scenario(seed: u64, k: u64, max_steps: u64, flags: &Flags, rec: &Rc<RefCe
 		o.insert(ConfirmationTarget::MinAllowedNonAnchorChannelRemoteFee, 253);
 	}
 	let ids = [nodes[0].node.get_our_node_id(), nodes[1].node.get_our_node_id()];
+	// By default both ends of a test channel derive the SAME channel_keys_id (it only depends on the
+	// user_channel_id and a per-node counter); the signer log is attributed by that id, so force
+	// distinct ones.
+	for n in 0..2 {
+		let mut id = [0u8; 32];
+		id[0] = 0xc0 + n as u8;
+		id[31] = 0x2a;
+		cfgs[n].keys_manager.set_next_keys_id(id);
+	}
 	let (_, _, chan_id, funding_tx) = create_announced_chan_between_nodes_with_value(&nodes, 0, 1, 1_000_000, 400_000_000);
 	let fee0 = *cfgs[0].fee_estimator.sat_per_kw.lock().unwrap();
 
@@ -906,6 +964,7 @@ fn run_scenario(seed: u64, k: u64, max_steps: u64, flags: &Flags, rec: &Rc<RefCe
 		chan_id,
 		funding_txid: funding_tx.compute_txid(),
 		keys: [[0u8; 32]; 2],
+		state_ids: [0; 2],
 		q: [VecDeque::new(), VecDeque::new()],
 		connected: true,
 		want_disc: false,
@@ -947,6 +1006,8 @@ fn run_scenario(seed: u64, k: u64, max_steps: u64, flags: &Flags, rec: &Rc<RefCe
 		for n in 0..2 {
 			let (kid, v) = vh::revocation_view(w.nodes[n].node, &w.ids[1 - n], &w.chan_id).expect("channel open after setup");
 			w.keys[n] = kid;
+			let sg = w.nodes[n].keys_manager.derive_channel_signer(kid);
+			w.state_ids[n] = std::sync::Arc::as_ptr(&sg.state) as usize;
 			keys.push(js(&hex(&kid)));
 			let p0 = w.intern.opt_point(&v.counterparty_current_point);
 			let p1 = w.intern.opt_point(&v.counterparty_next_point);
@@ -984,6 +1045,7 @@ fn run_scenario(seed: u64, k: u64, max_steps: u64, flags: &Flags, rec: &Rc<RefCe
 	let adv_start = if flags.adv && adv_on { adv_at } else { u64::MAX };
 	let close_start = if flags.close && close_on { close_at } else { u64::MAX };
 	let stale_start = if flags.reload && stale_on { stale_at } else { u64::MAX };
+	let extra_on = rng.below(3) == 0;
 
 	for step in 0..max_steps {
 		let views = [w.view(0), w.view(1)];
@@ -1001,6 +1063,13 @@ fn run_scenario(seed: u64, k: u64, max_steps: u64, flags: &Flags, rec: &Rc<RefCe
 			for n in 0..2 {
 				if w.connected && !w.q[n].is_empty() {
 					en.push((28, Act::Deliver(n)));
+				}
+			}
+			if flags.adv && extra_on && step >= adv_start && w.connected {
+				for n in 0..2 {
+					if views[n].as_ref().map(|v| !v.awaiting_remote_revoke && v.counterparty_next > 0).unwrap_or(false) {
+						en.push((1, Act::Extra(n)));
+					}
 				}
 			}
 			for n in 0..2 {
@@ -1095,13 +1164,22 @@ fn run_scenario(seed: u64, k: u64, max_steps: u64, flags: &Flags, rec: &Rc<RefCe
 		let mut delivered_reest = false;
 		match act {
 			Act::Deliver(n) => {
-				delivered_reest = matches!(w.q[n].front().map(|m| &m.w), Some(Wire::Reest(_)));
 				let adv = flags.adv && step >= adv_start;
 				w.deliver(n, &mut rng, adv, rec, &hdr);
 				// args were fixed (and stored) before the handler ran
 				let p = rec.borrow().pending.clone().unwrap();
 				let at = p.find("\"args\":{").unwrap() + 8;
 				args = p[at..p.len() - 1].to_string();
+				delivered_reest = args.starts_with("\"t\":\"reest\"");
+			},
+			Act::Extra(n) => match w.fabricate_raa(n) {
+				Some(m) => {
+					w.deliver_fabricated(n, m, rec, &hdr);
+					let p = rec.borrow().pending.clone().unwrap();
+					let at = p.find("\"args\":{").unwrap() + 8;
+					args = p[at..p.len() - 1].to_string();
+				},
+				None => args = "\"t\":\"raa\",\"corrupt\":\"raa_extra\",\"skipped\":true".to_string(),
 			},
 			Act::Send(n) => {
 				let (kind, amt) = [("dust", 100_000u64), ("small", 2_000_000), ("medium", 40_000_000)][rng.below(3) as usize];
